@@ -171,6 +171,9 @@ func (ex *Exec) callCommon(st *State, instr ssa.CallInstruction, c *ssa.CallComm
 				g.set(st, comp, fmt.Sprintf("(store %s (s.arr %s) %s)", cur, args[i], fv))
 			}
 		}
+	case key == "sync.Once.Do" && ex.onceDoReadOnly(c):
+		g.note("sync.Once.Do with a closure that performs no heap writes (mechanical read-only analysis): no heap effect")
+		ex.allocAdvance(st)
 	case key != "" && (isInert(key) || (sfn != nil && ex.P.readOnly(sfn))):
 		ex.allocAdvance(st)
 		for _, t := range resTypes {
@@ -458,4 +461,23 @@ func (ex *Exec) sortSlice(st *State, c *ssa.CallCommon, rec *callRec) bool {
 	g.assume(pc, fmt.Sprintf("(forall ((i Int) (j Int)) (! (=> (and (<= 0 i) (< i j) (< j (s.len %s))) (not %s)) :pattern ((select %s (sl.ix %s i)) (select %s (sl.ix %s j)))))", s, less(st, "j", "i"), na, s, na, s))
 	g.note("trusted built-in semantics of sort.Slice: permutation of the slice elements, sorted w.r.t. less, given that less is a strict weak order (proved as pre@sort.Slice obligations)")
 	return true
+}
+
+// onceDoReadOnly: the function passed to (*sync.Once).Do is a closure literal that writes no pre-existing memory.
+func (ex *Exec) onceDoReadOnly(c *ssa.CallCommon) bool {
+	if len(c.Args) < 2 {
+		return false
+	}
+	mc, ok := ex.closures[c.Args[1]]
+	if !ok {
+		if m, isMC := c.Args[1].(*ssa.MakeClosure); isMC {
+			mc = m
+		} else if f, isFn := c.Args[1].(*ssa.Function); isFn {
+			return ex.P.readOnly(f)
+		} else {
+			return false
+		}
+	}
+	f, ok := mc.Fn.(*ssa.Function)
+	return ok && ex.P.readOnly(f)
 }
